@@ -62,3 +62,12 @@ if _os.environ.get("VERIF_C20_E2E", "1") != "0":  # both findings repaired in /r
                             "question of every synthesised address of a baseline maps back to the same IPv4 address.")
     CHECK["bounds"] = {"quick": CHECK["bounds"]["quick"] + "; e2e: 10 names x 16 flag sets x 3 histories = 480 baselines, 1-9 positions x 39 kinds (6 kinds for CD / RD=0 clients): 9.9 k scenarios, each run on both chains from a cold state",
                        "thorough": CHECK["bounds"]["thorough"] + "; e2e: 12 names, 41 kinds for every flag set, 3 algorithm rotations: 60.5 k scenarios"}
+
+# VERIF_C20_E2E_ANCHORS=1 (read by the harness, lib/h_c20/zz_verif_c20_xkinds_test.go) adds to unit e2e the histories 'noanchors' /
+# 'noanchors-stale' (A answer cached, [clock +3700 s,] then the chain loses its trust anchors, then the AAAA question; 320 scenarios),
+# the kinds forge-bare-nodata / strip-negative, and the family "a tamper provokes DS sub-queries, one of them is answered with
+# nothing but a header" (3.3 k scenarios). OFF by default: on /repo 192514c they report 6 keys
+# C20:e2e/synth-over-validation-failure|reference=SERVFAIL {EDE 0, without OPT}|{trust-anchors-removed, tampered=referral|then=
+# {forge-bare-nodata,strip-negative}@ds} — dnssec.ErrTrustAnchorsUnavailable (EDE code 0 on purpose) and the untyped
+# "DS or NSEC records not found" of resolver.lookupDS reach DNS64 as EDE 0. Candidate repair:
+# lib/h_c20/candidate_fix_untyped_validation_errors.diff (green with it). See mutants/C20/RESULTS.md.
